@@ -904,6 +904,10 @@ func (s *MemoryStore) Extend(leaseID string, extendBy time.Duration) error {
 }
 
 func (s *MemoryStore) MarkDead(leaseID string, reason string) error {
+	if strings.TrimSpace(reason) == "" {
+		reason = ""
+	}
+
 	s.mu.Lock()
 	defer s.mu.Unlock()
 
@@ -934,6 +938,10 @@ func (s *MemoryStore) MarkDead(leaseID string, reason string) error {
 }
 
 func (s *MemoryStore) MarkDeadBatch(leaseIDs []string, reason string) (LeaseBatchResult, error) {
+	if strings.TrimSpace(reason) == "" {
+		reason = ""
+	}
+
 	s.mu.Lock()
 	defer s.mu.Unlock()
 
